@@ -72,6 +72,9 @@ func (p *PKI) Issue(cn string, server bool, selfSigned bool, expired bool) (der 
 	if server {
 		tmpl.DNSNames = []string{"localhost", cn}
 		tmpl.IPAddresses = []net.IP{net.ParseIP("127.0.0.1")}
+		if ip := net.ParseIP(cn); ip != nil { // a node named by its (loopback) address
+			tmpl.IPAddresses = append(tmpl.IPAddresses, ip)
+		}
 	}
 	parent, signer := p.CACert, p.CAKey
 	if selfSigned {
